@@ -19,6 +19,7 @@ package requestcontext
 import (
 	"net/http"
 	"net/url"
+	"strings"
 
 	"github.com/dadrus/heimdall/internal/x"
 )
@@ -42,13 +43,13 @@ func extractURL(req *http.Request) *url.URL {
 
 	if val := req.Header.Get("X-Forwarded-Uri"); len(val) != 0 {
 		if forwardedURI, err := url.Parse(val); err == nil {
-			rawPath = forwardedURI.EscapedPath()
+			rawPath = escapedPath(forwardedURI)
 			query = forwardedURI.RawQuery
 		}
 	}
 
 	if len(rawPath) == 0 {
-		rawPath = req.URL.EscapedPath()
+		rawPath = escapedPath(req.URL)
 	}
 
 	if len(query) == 0 {
@@ -64,4 +65,38 @@ func extractURL(req *http.Request) *url.URL {
 		RawPath:  rawPath,
 		RawQuery: query,
 	}
+}
+
+// escapedPath returns the path as received. url.URL.EscapedPath() alone cannot be used for that purpose: if the
+// received path contains characters, which are not allowed to appear unescaped (like '|', '^', '{' or '}'), it
+// ignores the received form and returns a new encoding of the decoded path, which e.g. contains
+// a plain slash in place of every encoded one. In that case exactly the offending characters are escaped, so that
+// the result is a valid encoding of the very same path and everything the client has encoded stays encoded.
+func escapedPath(u *url.URL) string {
+	escaped := u.EscapedPath()
+	if len(u.RawPath) == 0 || escaped == u.RawPath {
+		return escaped
+	}
+
+	var builder strings.Builder
+
+	for i := range len(u.RawPath) {
+		char := u.RawPath[i]
+
+		switch {
+		case 'a' <= char && char <= 'z', 'A' <= char && char <= 'Z', '0' <= char && char <= '9',
+			strings.IndexByte("-_.~/%!$&'()*+,;=:@", char) >= 0:
+			builder.WriteByte(char)
+		default:
+			builder.WriteByte('%')
+			builder.WriteByte("0123456789ABCDEF"[char>>4])  //nolint:mnd
+			builder.WriteByte("0123456789ABCDEF"[char&0xf]) //nolint:mnd
+		}
+	}
+
+	if path, err := url.PathUnescape(builder.String()); err != nil || path != u.Path {
+		return escaped
+	}
+
+	return builder.String()
 }
